@@ -37,8 +37,10 @@ def configs(D, tier):
     out = []
     for tt, M, rd, ld, pd in itertools.product(types, Ms, [1, 2], [None, 2], ["TORUS", None, "SAME", "VALID", "explicit"]):
         even = any(m % 2 == 0 for m in M)
-        if (even and pd in ("TORUS", None, "SAME")) or (pd in ("TORUS", None) and ld is not None):
+        if even and pd in ("TORUS", None, "SAME"):
             continue
+        if pd in ("TORUS", None) and ld is not None and (q or rd != 1):
+            continue      # wrap-then-dilate transposed convolution: two explicit configurations in the quick tier (below), the rd=1 ones in thorough
         out.append(dict(k=tt[0][0], p=tt[0][1], kf=tt[1][0], pf=tt[1][1], M=list(M), rdil=rd, ldil=ld, padding=pd))
     if q and D == 3:
         # the quick tier keeps d=3 to four representative configurations (the heavy combinations of image dilation,
@@ -52,6 +54,11 @@ def configs(D, tier):
     flagsets = list(itertools.product([True, False], repeat=D))
     for i, c in enumerate(sel):
         c["flags"] = list(flagsets[(i * 3 + 1) % len(flagsets)])
+    if q and D == 2:
+        # image dilation on toroidal axes (padding 'TORUS' / None): the wrapped image is dilated, the covariance clause of the
+        # statement covers it (the translation clause does not)
+        sel.append(dict(k=1, p=0, kf=0, pf=1, M=[3, 3], rdil=1, ldil=2, padding="TORUS", flags=[True, True]))
+        sel.append(dict(k=0, p=1, kf=1, pf=0, M=[3, 1], rdil=1, ldil=2, padding=None, flags=[True, False]))
     return sel
 
 
